@@ -128,9 +128,14 @@ Select(st, m, u) ==
 
 \* the outcome in the vocabulary of EndpointPolicyP, decls = the declarations with names
 IOut(st, decls, m, u) ==
-    LET s == Select(st, m, u) IN
-    IF s.id = 0 THEN [sel |-> {}, dsel |-> {}]
+    LET s  == Select(st, m, u)
+        l  == LookupNode(st.t, Parts(u))
+        lk == IF l.match THEN [match |-> TRUE, norm |-> RenderParts(l.up), params |-> l.params]
+              ELSE [match |-> FALSE, norm |-> "", params |-> {}]
+    IN
+    IF s.id = 0 THEN [sel |-> {}, dsel |-> {}, lk |-> lk]
     ELSE LET d == CHOOSE d \in decls : d.id = s.id IN
          [sel  |-> {[r |-> d.r, norm |-> s.norm, params |-> s.params]},
-          dsel |-> {[r |-> d.g, norm |-> s.norm, params |-> {}]}]
+          dsel |-> {[r |-> d.g, norm |-> s.norm, params |-> {}]},
+          lk   |-> lk]
 ================================================================================
